@@ -41,10 +41,10 @@ class World:
         self.gfile = gfile
         self.empty = None
 
-    def new_cart(self, ext, with_label=False):
+    def new_cart(self, ext, with_label=False, path=None):
         rng = self.rng
         self.n += 1
-        path = os.path.join(self.ctx.tmp, 'src%d%s' % (self.n, ext))
+        path = path or os.path.join(self.ctx.tmp, 'src%d%s' % (self.n, ext))
         code = b'-- cart %d\n' % self.n + gen_code.gen_code(rng, lines=rng.choice([1, 3]), final_newline=True)
         # (a NUL byte in code that a .p8.png stores raw is cut there: open known finding C04:raw-code-with-nul, not this property's subject)
         code = code.replace(b'\x00', b'\x01')
@@ -104,10 +104,17 @@ def one_build(ctx, res, w, assign, out_state, out_ext, lines, expect, cases, con
         prev_bytes = open(out, 'rb').read()
     argv, want, model_secs = [], {}, []
     empty = cart_contents_empty(w)
+    # names that contain one another: the .p8 and the .p8.png of one game side by side (`build game.p8.png --gfx game.p8`), a source
+    # whose name continues OUT's; each is a file of its own
+    twin = {'p8': out[:-4] if out_ext == '.p8.png' else None, 'png': out + '.png' if out_ext == '.p8' else None}
+    use_twin = rng.random() < 0.35
     for s in SECS:
         a = assign[s]
         if a in ('p8', 'png', 'lua'):
-            path = w.new_lua() if a == 'lua' else w.new_cart('.p8' if a == 'p8' else '.p8.png')
+            tw = twin.get(a) if use_twin else None
+            if tw and os.path.exists(tw):
+                tw = None
+            path = w.new_lua() if a == 'lua' else w.new_cart('.p8' if a == 'p8' else '.p8.png', path=tw)
             argv += ['--' + s, path]
             want[s] = norm_code(open(path, 'rb').read()) if a == 'lua' else cart_contents(path)[s]
             model_secs.append('%d,0,1,%d,%d' % (SECS.index(s) + 1, 0 if a == 'lua' else 1, 1 if a == 'lua' else 0))
